@@ -59,6 +59,31 @@ func TestChildStorm(t *testing.T) {
 		t.Skip("not a shard child")
 	}
 	res := shard.NewResult()
+	if part == "mixed" {
+		// a short-lease tenure in a process that already has far timers pending (and no other timer traffic)
+		L := []time.Duration{300 * time.Millisecond, 400 * time.Millisecond}[idx%2]
+		for attempt := 1; ; attempt++ {
+			o := locktap.TenureBesideFarTimers(L)
+			res.Maxes["canary_worst_stall_us"] = max(res.Maxes["canary_worst_stall_us"], int64(o.Stall/time.Microsecond))
+			if o.Sig != "" && o.Stall > L/8 {
+				if attempt < 3 {
+					res.Counters["takeover_repeated_because_of_a_stall"]++
+					continue
+				}
+				res.Inconcl = append(res.Inconcl, fmt.Sprintf("tenure-beside-far-timers: %s (canary stall %v)", o.What, o.Stall))
+				break
+			}
+			res.Evals++
+			res.Counters["tenure_beside_far_timers_scenarios"]++
+			res.Classes = append(res.Classes, fmt.Sprint("tenure-beside-far-timers", L))
+			if o.Sig != "" {
+				res.Violation("lock/two-holders", "real clock: "+o.What, map[string]any{"mode": "tenure-beside-far-timers", "lease": L.String()})
+			}
+			break
+		}
+		shard.Emit(res)
+		return
+	}
 	if part == "slow" {
 		// a storage that answers the renewals slowly (inside half a lease). The renewal callbacks block a worker of
 		// the 10-worker timer pool for a good part of the time: a process of its own, so that no other scenario's
@@ -489,7 +514,7 @@ func staleRenewal(L time.Duration, n int32) (sig, what string, stall time.Durati
 func TestCheck(t *testing.T) {
 	run := report.New(prop, "fault_enumeration")
 	defer run.Finish(t)
-	run.Rule("controlled: scenarios of 2-5 workers (distinct Lockers of 1-3 providers and goroutines sharing a Locker) running programs over {Lock, TryLock, LockWithCtx} inside a synctest bubble; every kvs.Storage call of the lock code is a gate, the scheduler picks one enabled action per step (release a gate normally / as 'request lost' / as 'reply lost' with up to 2 faults, cancel an attempt before or during the call, leave a critical section, expire an ownerless record) - random and PCT schedules plus exhaustive DFS of 27 two-worker configurations with <=1 fault; monitor: number of callers between acquisition return and Unlock call never exceeds 1. take-over: on the real clock with a 300/400 ms lease (hook) a caller waits 1.25-2 leases behind a holder, takes over and holds for 3 leases against a TryLock-spinning third Locker (canary-guarded); stale renewal: the answer of the previous holder's n-th renewal arrives after it unlocked and another caller acquired. unlock vs failed renewal: A's renewal is answered with an error (request lost) while A is unlocking, then B acquires and a third Locker spins. tenures during which the holder's provider is shut down or single renewal requests (1st..7th, pairs, triples) are lost, against a spinning Locker. slow storage (own processes): the holder's storage answers every renewal slowly but inside half a lease (a caller whose context ends meanwhile gets the context's error), 4 leases against a spinning Locker. hand-off storm (own process): goroutines sharing one Locker hand the lock over 150 000 (3 000 000) times; a holder found without a pending lease timer right after a hand-off (hook), or the last one, keeps the lock for two leases against another provider's Locker. free-running: same monitor under real scheduling with the race detector on inmem and Redis(miniredis). distinct = distinct (configuration, action trace) pairs executed in the controlled part")
+	run.Rule("controlled: scenarios of 2-5 workers (distinct Lockers of 1-3 providers and goroutines sharing a Locker) running programs over {Lock, TryLock, LockWithCtx} inside a synctest bubble; every kvs.Storage call of the lock code is a gate, the scheduler picks one enabled action per step (release a gate normally / as 'request lost' / as 'reply lost' with up to 2 faults, cancel an attempt before or during the call, leave a critical section, expire an ownerless record) - random and PCT schedules plus exhaustive DFS of 27 two-worker configurations with <=1 fault; monitor: number of callers between acquisition return and Unlock call never exceeds 1. take-over: on the real clock with a 300/400 ms lease (hook) a caller waits 1.25-2 leases behind a holder, takes over and holds for 3 leases against a TryLock-spinning third Locker (canary-guarded); stale renewal: the answer of the previous holder's n-th renewal arrives after it unlocked and another caller acquired. unlock vs failed renewal: A's renewal is answered with an error (request lost) while A is unlocking, then B acquires and a third Locker spins. tenures during which the holder's provider is shut down or single renewal requests (1st..7th, pairs, triples) are lost, against a spinning Locker. far timers (own processes): a short-lease tenure taken while a lock of another name with a 30 s lease and a foreign timer 20 s ahead are pending in the process. slow storage (own processes): the holder's storage answers every renewal slowly but inside half a lease (a caller whose context ends meanwhile gets the context's error), 4 leases against a spinning Locker. hand-off storm (own process): goroutines sharing one Locker hand the lock over 150 000 (3 000 000) times; a holder found without a pending lease timer right after a hand-off (hook), or the last one, keeps the lock for two leases against another provider's Locker. free-running: same monitor under real scheduling with the race detector on inmem and Redis(miniredis). distinct = distinct (configuration, action trace) pairs executed in the controlled part")
 	run.Assume("controlled part: frozen virtual time, so leases never expire under a live holder (the property's premise); storage operations are atomic steps there - their internal atomicity is what the free-running part and C02 look at")
 	run.Assume("an ownerless lock record (left by an injected lost reply / lost Delete) disappears only through the explicit 'expire' action, which models lease expiry")
 
@@ -505,6 +530,13 @@ func TestCheck(t *testing.T) {
 	go func() { // hand-off storms, one process each (they run beside everything below)
 		defer swg.Done()
 		for c := range shard.Run(run, "TestChildStorm", "storm", run.Pick(4, 8), 30*time.Minute, "VERIF_TIER="+map[bool]string{true: "thorough", false: "quick"}[run.Thorough()]) {
+			run.DistinctStr(c)
+		}
+	}()
+	swg.Add(1)
+	go func() { // tenures beside far timers, one process each
+		defer swg.Done()
+		for c := range shard.Run(run, "TestChildStorm", "mixed", 2, 30*time.Minute) {
 			run.DistinctStr(c)
 		}
 	}()
